@@ -28,12 +28,12 @@ func ruleC19(r *Report) {
 	r.Trusted("golang.org/x/crypto/bcrypt (CompareHashAndPassword)", "net/http, encoding/json, html/template", "go/ssa of golang.org/x/tools v0.29.0")
 	r.NotDecided("histories, fault sequences and restart (an executable reference model over all histories is outside this family); in particular the consistency over time of the in-memory service registry with the stored services (the pinned-tree stale-registry defect is a relation between two requests)")
 	r.Assume("the SessionProvider contract of the IdP (GetSession returns nil iff it completed the HTTP request) is used at the interface call sites and verified separately for the bundled implementation")
-	r.Rule("C19.authn-gate", "the bundled GetSession returns a session only (a) under bcrypt.CompareHashAndPassword == nil against the stored hash of the posted user fetched without error, or (b) for a stored session fetched without error by the cookie's value and not expired on the library clock", 3)
-	r.Rule("C19.session-source", "a session created at login describes the stored user: every identity field of the new session comes from the fetched user record, fresh randomness or the clock", 8)
-	r.Rule("C19.sso-gate", "assertions are made and responses written only with a non-nil session from the session provider, after the request validated (SSO) or the registered provider and a POST endpoint were found (IdP-initiated), and the shortcut was fetched without error", 5)
-	r.Rule("C19.one-reply", "every path through every handler of the bundled server and of the IdP performs exactly one reply action (a second only on the error edge of a failed first); the bundled GetSession replies exactly once when it returns nil and not at all otherwise", 20)
-	r.Rule("C19.hash", "the stored password hash is read only by the credential check and the keep-on-update copy, is cleared before a user record is encoded to a response, and is never passed to a logger", 3)
-	r.Rule("C19.store-errors", "the error of every backing-store call made by the bundled server is tested, and no success reply (2xx status, encoded result) is written on the failure edge of a store call unless the failure is specifically 'not found'", 15)
+	r.Rule("C19.authn-gate", "the bundled GetSession returns a session only (a) under bcrypt.CompareHashAndPassword == nil against the stored hash of the posted user fetched without error, or (b) for a stored session fetched without error by the cookie's value and not expired on the library clock", 1)
+	r.Rule("C19.session-source", "a session created at login describes the stored user: every identity field of the new session comes from the fetched user record, fresh randomness or the clock", 6)
+	r.Rule("C19.sso-gate", "assertions are made and responses written only with a non-nil session from the session provider, after the request validated (SSO) or the registered provider and a POST endpoint were found (IdP-initiated), and the shortcut was fetched without error", 2)
+	r.Rule("C19.one-reply", "every path through every handler of the bundled server and of the IdP performs exactly one reply action (a second only on the error edge of a failed first); the bundled GetSession replies exactly once when it returns nil and not at all otherwise", 12)
+	r.Rule("C19.hash", "the stored password hash is read only by the credential check and the keep-on-update copy, is cleared before a user record is encoded to a response, and is never passed to a logger", 1)
+	r.Rule("C19.store-errors", "the error of every backing-store call made by the bundled server is tested, and no success reply (2xx status, encoded result) is written on the failure edge of a store call unless the failure is specifically 'not found'", 12)
 
 	checkAuthnGate(r, p)
 	checkSSOGate(r, p)
